@@ -42,8 +42,8 @@ class T0(Component):
     pass
 
 
-class T1(Component):
-    pass
+class T1(Component, __import__("abc").ABC):
+    """A component class whose metaclass is not `type` (abc.ABCMeta): it is a class like any other."""
 
 
 class T2(__import__("props.common", fromlist=["x"]).ChaosMixin, Component):
